@@ -5,6 +5,7 @@ import (
 	"errors"
 	"fmt"
 	"os"
+	"runtime"
 	"strconv"
 	"strings"
 	"sync"
@@ -36,6 +37,12 @@ type plan struct {
 	EndTxn         bool // txn: an EndTransaction is in flight at Close
 	Pollers        int
 	CommitInFlight bool
+	// CloseAtLog > 0 issues Close from the client's own log stream instead: at the CloseAtLog-th
+	// line the client logs (debug level), on the client goroutine that logs it. kgo calls its
+	// logger synchronously, so this places Close between two statements of whatever internal
+	// loop happens to log there (dialing, a metadata update, a join, a produce or fetch in
+	// flight, a heartbeat), far finer than any virtual instant can.
+	CloseAtLog int
 }
 
 func genPlan(t *rapid.T) plan {
@@ -53,10 +60,19 @@ func genPlan(t *rapid.T) plan {
 	p.EndTxn = rapid.Bool().Draw(t, "endtxn")
 	p.Pollers = rapid.IntRange(0, 2).Draw(t, "pollers")
 	p.CommitInFlight = rapid.Bool().Draw(t, "commit")
+	if rapid.IntRange(0, 2).Draw(t, "closeatlog?") == 0 {
+		p.CloseAtLog = rapid.IntRange(1, 400).Draw(t, "closeatlog")
+	}
 	return p
 }
 
 const bound = 15 * time.Minute
+
+// schedLogger turns the client's log calls into schedule points (see plan.CloseAtLog).
+type schedLogger struct{ fn func() }
+
+func (schedLogger) Level() kgo.LogLevel                { return kgo.LogLevelDebug }
+func (l schedLogger) Log(kgo.LogLevel, string, ...any) { l.fn() }
 
 // stallLimit is how much REAL time a case may keep running after Close has returned. Every
 // wait of the harness after that point is bounded in virtual time and costs milliseconds of
@@ -75,7 +91,7 @@ var stallLimit = func() time.Duration {
 func TestCloseAlwaysFinishes(t *testing.T) {
 	rapid.Check(t, func(rt *rapid.T) {
 		p := genPlan(rt)
-		var inflight bool
+		var inflight, closedFromLog bool
 		var closeReturned atomic.Bool
 		caseDone := make(chan struct{})
 		defer close(caseDone)
@@ -155,7 +171,37 @@ func TestCloseAlwaysFinishes(t *testing.T) {
 			case "share":
 				opts = append(opts, kgo.ShareGroup("s13"), kgo.ConsumeTopics("in"), kgo.FetchMaxWait(time.Second))
 			}
-			cl, err := kgo.NewClient(append(e.BaseOpts(), opts...)...)
+			var cl *kgo.Client
+			var readyLog *atomic.Bool
+			cdone := make(chan struct{})
+			var closeOnce sync.Once
+			var closeFromLog atomic.Bool
+			doClose := func() {
+				closeOnce.Do(func() {
+					go func() {
+						if p.Kind == "group-block" {
+							cl.CloseAllowingRebalance()
+						} else {
+							cl.Close()
+						}
+						close(cdone)
+					}()
+				})
+			}
+			if p.CloseAtLog > 0 {
+				var nlog atomic.Int64
+				var ready atomic.Bool
+				opts = append(opts, kgo.WithLogger(schedLogger{func() {
+					if ready.Load() && nlog.Add(1) == int64(p.CloseAtLog) {
+						closeFromLog.Store(true)
+						doClose()
+						runtime.Gosched()
+					}
+				}}))
+				e.OnTeardown(func() { ready.Store(false) })
+				readyLog = &ready
+			}
+			cl, err = kgo.NewClient(append(e.BaseOpts(), opts...)...)
 			if err != nil {
 				panic("VERIF-INFRA: NewClient: " + err.Error())
 			}
@@ -223,6 +269,9 @@ func TestCloseAlwaysFinishes(t *testing.T) {
 						cl.CommitUncommittedOffsets(ctx)
 					})
 				}
+			}
+			if readyLog != nil {
+				readyLog.Store(true) // the application calls are running: the logger may issue Close from now on
 			}
 			// network condition, then Close, at generated virtual instants
 			netOn := func() {
@@ -295,16 +344,8 @@ func TestCloseAlwaysFinishes(t *testing.T) {
 			}
 			inflight = cl.BufferedProduceRecords() > 0 || p.Kind != "producer"
 			e.Log.Add("close-start", 0, "", nil, int64(time.Since(start)), 0)
-			cdone := make(chan struct{})
 			t0 := time.Now()
-			go func() {
-				if p.Kind == "group-block" {
-					cl.CloseAllowingRebalance()
-				} else {
-					cl.Close()
-				}
-				close(cdone)
-			}()
+			doClose()
 			fail := func(format string, a ...any) {
 				rt.Fatalf("%s\nplan: %+v", fmt.Sprintf(format, a...), p)
 			}
@@ -362,10 +403,14 @@ func TestCloseAlwaysFinishes(t *testing.T) {
 				fail("client goroutine(s) running after a post-Close produce:\n%s", strings.Join(firstN(gs, 5), "\n\n"))
 			}
 			ev.ClassN("close-virtual-seconds", int64(took/time.Second))
+			closedFromLog = closeFromLog.Load()
 		})
 		ev.Case(fmt.Sprintf("%+v", p), inflight)
 		ev.Class("kind:" + p.Kind)
 		ev.Class("net:" + p.NetMode)
+		if closedFromLog {
+			ev.Class("close-issued-at-a-client-log-line")
+		}
 		if inflight {
 			ev.SampleIf(func() any { return map[string]any{"plan": fmt.Sprintf("%+v", p)} })
 		}
